@@ -133,16 +133,19 @@ func parseArgsWithExpiration(args map[string]any, defaultHandler func(name strin
 	}
 
 	for name, arg := range args {
+		ok := true
 		switch name {
 		case "expiration.seconds", "seconds":
-			expiration = now.Add(time.Second*time.Duration(arg.(int64)) - time.Nanosecond)
+			expiration, ok = deadlineAfter(now, arg.(int64), true)
+			expiration = expiration.Add(-time.Nanosecond)
 		case "expiration.milliseconds", "milliseconds":
-			expiration = now.Add(time.Millisecond*time.Duration(arg.(int64)) - time.Nanosecond)
+			expiration, ok = deadlineAfter(now, arg.(int64), false)
+			expiration = expiration.Add(-time.Nanosecond)
 		case "expiration.unix-time-seconds":
-			expiration = time.Unix(arg.(int64), 0).Add(time.Duration(now.Nanosecond()) - time.Nanosecond)
+			expiration, ok = deadlineAt(arg.(int64), true)
+			expiration = clampDeadline(expiration.Add(time.Duration(now.Nanosecond()) - time.Nanosecond))
 		case "expiration.unix-time-milliseconds":
-			n := arg.(int64)
-			expiration = time.Unix(n/1000, (n%1000)*(1000*1000))
+			expiration, ok = deadlineAt(arg.(int64), false)
 		case "expiration.persist":
 			expiration = maxTime
 		default:
@@ -150,10 +153,49 @@ func parseArgsWithExpiration(args map[string]any, defaultHandler func(name strin
 				defaultHandler(name, arg)
 			}
 		}
+		if !ok {
+			return
+		}
 	}
 
 	valid = true
 	return
+}
+
+// deadlineAfter returns t advanced by n seconds or milliseconds. It does not go through time.Duration,
+// which holds at most 292 years and wraps around beyond that. ok is false where Redis reports an invalid
+// expire time: n scaled to milliseconds, or the resulting Unix time in milliseconds, overflows an int64.
+func deadlineAfter(t time.Time, n int64, seconds bool) (deadline time.Time, ok bool) {
+	if seconds {
+		if n > math.MaxInt64/1000 || n < math.MinInt64/1000 {
+			return
+		}
+		n *= 1000
+	}
+	if n > math.MaxInt64-t.UnixMilli() {
+		return
+	}
+	return clampDeadline(time.Unix(t.Unix()+n/1000, int64(t.Nanosecond())+(n%1000)*int64(time.Millisecond))), true
+}
+
+// deadlineAt is deadlineAfter for an absolute Unix time in seconds or milliseconds.
+func deadlineAt(n int64, seconds bool) (deadline time.Time, ok bool) {
+	if seconds {
+		if n > math.MaxInt64/1000 || n < math.MinInt64/1000 {
+			return
+		}
+		return clampDeadline(time.Unix(n, 0)), true
+	}
+	return clampDeadline(time.Unix(n/1000, (n%1000)*int64(time.Millisecond))), true
+}
+
+// clampDeadline keeps a deadline below maxTime, which the store uses for "no expiry": a later deadline
+// cannot be represented, and the key stays volatile rather than silently becoming persistent.
+func clampDeadline(deadline time.Time) time.Time {
+	if !deadline.Before(maxTime) {
+		return maxTime.Add(-time.Millisecond)
+	}
+	return deadline
 }
 
 func fnGetEx(ctx *cmdContext, args map[string]any) (output respValue, err error) {
